@@ -429,7 +429,7 @@ impl ClusterHandler for AclHandler {
             // NOTE: Not sure this is a spec-compliant behavor:
             // If the failsafe is armed for our fabric, we'll NOT persist the groups changes until commissioning is complete.
             // And we'll LOSE those changes if the failsafe times out before commissioning completes.
-            if !state.failsafe.is_armed_for(fab_idx.get()) {
+            if !state.failsafe.defers_store_for(fab_idx.get()) {
                 persist.store(fabric)?;
             }
 
